@@ -19,7 +19,7 @@ func init() {
 			"(e) both sides seal/open with nonce = first 12 bytes of the ephemeral public key and key = ECDH(own private, peer public) over the 32 carrier bytes; (c) the carriers agree: random ← public key, session id ← ct[0:32], key share ← ct[32:64] on the client, the same three fields read back on the server with the 64-byte check; CDN: header 'hidden' = base64(key ‖ ct), read back as hidden[0:32] / hidden[32:]; " +
 			"(d) the reply layout: the server places nonce/key[0:20] in the ServerHello random (message offset 6) and key[20:48] at offset 84, exactly the fixed offsets the client reads ([6:38] ‖ [84:116] → nonce [0:12], sealed key [12:60]), and the client consumes exactly the two further records the server sends; CDN: 12+48 bytes written, 60 required and split at 12; " +
 			"(f) the key sealed for a connection is the joined session's key (C15.R3) and key, encryption method and ordered flag reach the session on both ends; the first-packet buffer whose slices the responder keeps is private to the connection.",
-		NotDecided: "(a) equality of the recovered values as such; (g) uTLS's ClientHello construction and gorilla's upgrade (library behaviour); the clock-window clause (C07).",
+		NotDecided:  "(a) equality of the recovered values as such; (g) uTLS's ClientHello construction and gorilla's upgrade (library behaviour); the clock-window clause (C07).",
 		Assumptions: []string{"X25519 is symmetric: ECDH(a, B) = ECDH(b, A)", "AES-GCM round-trips under equal key/nonce"},
 	})
 }
